@@ -226,3 +226,45 @@ _extend("C05", "who-may-write rule for the vnadata dimensions", "Also decides th
 _extend("C15", "who-may-write rule for the vnadata dimensions", "Also decides that vd_rows, vd_columns and vd_frequencies are assigned only by vnadata_resize (increments excepted), the function R14 checks for vacated-cell resets.")
 _extend("C09", "extent-stale typestate for header-sized buffers; re-executed acquisition sites in loops",
         "Also decides that no buffer sized from a header value is used after that value was assigned again, and that an allocation site executed again in a keyword loop does not overwrite a still-owned object.")
+
+
+# ---- clauses added in the audit-driven round (R13, R51-R64 and the R09/R18/R19b/R20/R37 extensions) ------------------------------
+_extend("C03", "VLA-declaration-order rule; optional-member and optional-element belief checks across functions; mapped-extent enumeration for port-map "
+               "subscripts; output-buffer read-before-initialisation summaries; product-overflow rule for allocation sizes; interprocedural parameter "
+               "bounds for `v[E-c]`",
+        "Also decides that no VLA is sized before the refusal that bounds its extent, that conditionally allocated vector members and NULL-able vector "
+        "elements are dereferenced only under a NULL test (in the function or in every caller chain), that every `A[portmap[j]-1]` of "
+        "_vnacal_new_add_common stays inside A for all shapes up to 3x3, that no callee reads a caller's uninitialised output buffer before initialising it, "
+        "and that rows*columns cannot wrap before it sizes an allocation.")
+_extend("C02", "optional-member belief check", "Also decides that the V-matrix vector, allocated only for over-determined systems with an error model, "
+               "is never subscripted without a NULL test (the iterative solver's save/restore).")
+_extend("C20", "optional-element belief check", "Also decides that the TRL detector and the solvers test an S-matrix cell for NULL before dereferencing it "
+               "(a standard that leaves cells unspecified is classified, not crashed on).")
+_extend("C18", "output-buffer read-before-initialisation summaries", "Also decides that the solvers do not read slices of the unknown vector that no "
+               "system has written yet (a result that depended on stack contents).")
+_extend("C09", "loader-shape rules: shaped-on-success typestate, forced slot counts, shape sibling of the constructor, NaN-safe refusals of file doubles, "
+               "error class of file values handed to API setters, product overflow",
+        "Also decides that every success exit of the Touchstone/NPD loaders has shaped the object, that a slot count is never raised by decree, that "
+        "vnacal_load refuses the calibration shapes vnacal_new_alloc refuses, that a frequency read from a .vnacal file cannot pass its ordered refusals "
+        "as NaN, and that a file value reaches an API setter's usage refusal (EINVAL) only after the loader has refused that range itself as a syntax "
+        "error.")
+_extend("C08", "forced-slot-count / merge-start rule of the NPD scanner", "Also decides that the `#:parameters` join keeps every field (blank- and "
+               "comma-separated spellings load alike).")
+_extend("C07", "shape sibling of the constructor", "Also decides that a saved calibration's rows/columns relation is one the loader accepts and the "
+               "constructor could have produced.")
+_extend("C10", "spline segment-count agreement (n = 0..4); ignored-argument refusal enumeration; derived-vector staleness rule",
+        "Also decides that the spline helpers and their callers agree that n counts segments (two points are interpolated, not held constant), that "
+        "vnacal_new_set_m_error cannot refuse a call for the contents of a frequency vector it ignores, and that vnacal_new_set_frequency_vector takes "
+        "notice of the error vector interpolated onto the old frequencies.")
+_extend("C11", "atomic refusal through by-value argument structures, repeated mutating callees and delegated validation; mapped-extent and VLA-order "
+               "rules; loader error class; ignored-argument refusals",
+        "Also decides that vnadata_init and the vnacal_new_add_* funnel do not modify the object before a callee refuses the same arguments (one recorded "
+        "finding: parameters stay registered after a refused add), and that out-of-range port-map entries are refused rather than written through.")
+_extend("C12", "mode-switch commit rule; count/vector constructor contracts incl. untested member dereference in destructors",
+        "Also decides that a pointer member whose non-NULL-ness other files read as a mode switch is not installed before an allocation that can still "
+        "fail (vnacal_new_set_m_error builds aside).")
+_extend("C15", "invariant-writer rule for z0 vectors; delegated-validation atomicity of vnadata_init; checker-callee lower bounds",
+        "Also decides that writers of the per-frequency z0 vectors use vd_frequencies of the same object and that vnadata_init validates before it "
+        "empties the object.")
+_extend("C06", "precision-range agreement of setters and loader", "Also decides that the precision setters and the NPD loader accept exactly the range "
+               "the formatters' buffers are sized for.")
